@@ -736,11 +736,11 @@ func lexSoyDocParam(l *lexer) {
 	for {
 		var r = l.next()
 		if isSpaceEOL(r) || r == eof {
-			l.pos--
+			l.backup() // a no-op at eof
 			l.emit(itemIdent)
 			// don't skip newlines. the outer routine needs to know about it
-			if isSpace(r) || r == eof {
-				l.pos++
+			if isSpace(r) {
+				l.next()
 			}
 			l.ignore()
 			break
